@@ -302,3 +302,31 @@ func DescribeValue(c *dom.Ctx, v Value) string {
 	}
 	return fmt.Sprintf("%T", v)
 }
+
+// FlattenPtr views a pointer-valued abstract value (possibly a tree of MuxV)
+// as: the condition under which it is nil, and for every target location the
+// condition under which it points there.
+func FlattenPtr(c *dom.Ctx, v Value) (nilc bdd.Node, targets map[string]bdd.Node, ok bool) {
+	targets = map[string]bdd.Node{}
+	nilc = bdd.False
+	var walk func(v Value, cond bdd.Node) bool
+	walk = func(v Value, cond bdd.Node) bool {
+		if cond == bdd.False {
+			return true
+		}
+		switch x := v.(type) {
+		case *Ptr:
+			nilc = c.M.Or(nilc, c.M.And(cond, x.Nil))
+			if x.Nil != bdd.True {
+				k := x.Root + "/" + x.Path
+				targets[k] = c.M.Or(targets[k], c.M.And(cond, c.M.Not(x.Nil)))
+			}
+			return true
+		case *MuxV:
+			return walk(x.A, c.M.And(cond, x.P)) && walk(x.B, c.M.And(cond, c.M.Not(x.P)))
+		}
+		return false
+	}
+	ok = walk(v, bdd.True)
+	return
+}
